@@ -312,6 +312,8 @@ _TABLE: List[Tuple[str, Tuple[str, ...], bool, Any]] = [
     ("max(a, 1, key=lambda q: q)", ("a",), False, None),
     ("[a for a in (1,)]", ("a",), False, None),
     ("len", (), False, None),
+    ("len((a, b))", ("a", "b"), False, None),
+    ("__builtins__", (), False, None),
     ("a + open", ("a",), False, None),
 ]
 _NAMESETS: List[Tuple[str, ...]] = [(), ("a",), ("b",), ("a", "b"), ("a", "b", "len"), ("a", "open")]
@@ -333,24 +335,40 @@ def _free_all(text: str) -> List[str]:
 
 
 def _compile_once(ev, i: int, n: int, via_factory: bool = False):
+    """compile text i with declared names n.  Text and names are concrete once the indices are forked on, and the
+    compile itself runs natively (NoTracing): under the tracer CrossHair's set/dict proxies change in-place update
+    semantics (`s |= ...` rebinding instead of mutating), which would hide state shared between evaluators."""
+    from crosshair.tracers import NoTracing
     from semantiva.utils.safe_eval import ExpressionError
 
-    if via_factory and _NAMESETS[n]:
-        # the path a YAML derive.parameter_sweep takes: the sweep factory compiles the expression with the sweep's
-        # variables as the declared names (stock evaluator)
-        from semantiva.data_processors.parametric_sweep_factory import ParametricSweepFactory, SequenceSpec
-        from vt import lib
+    ci = next(k for k in range(len(_TABLE)) if i == k)
+    cn = next(k for k in range(len(_NAMESETS)) if n == k)
+    text, names = _TABLE[ci][0], tuple(_NAMESETS[cn])
+    with NoTracing():
+        if via_factory and names:
+            # the path a YAML derive.parameter_sweep takes: the sweep factory compiles the expression with the sweep's
+            # variables as the declared names (stock evaluator)
+            from semantiva.data_processors.parametric_sweep_factory import ParametricSweepFactory, SequenceSpec
+            from vt import lib
 
+            try:
+                ParametricSweepFactory.create(element=lib.OpTwo, element_kind="DataOperation", collection_output=lib.IntColl,
+                                              vars={nm: SequenceSpec([0]) for nm in names}, parametric_expressions={"a": text})
+                return "accepted-by-factory"
+            except ValueError:
+                return None
         try:
-            ParametricSweepFactory.create(element=lib.OpTwo, element_kind="DataOperation", collection_output=lib.IntColl,
-                                          vars={nm: SequenceSpec([0]) for nm in _NAMESETS[n]}, parametric_expressions={"a": _TABLE[i][0]})
-            return "accepted-by-factory"
-        except ValueError:
+            return ev.compile(text, set(names))
+        except ExpressionError:
             return None
-    try:
-        return ev.compile(_TABLE[i][0], set(_NAMESETS[n]))
-    except ExpressionError:
-        return None
+
+
+def _new_evaluator(custom: bool):
+    from crosshair.tracers import NoTracing
+    from semantiva.utils.safe_eval import ExpressionEvaluator
+
+    with NoTracing():
+        return ExpressionEvaluator(allowed_funcs={"len": len, "pow": pow}) if custom else ExpressionEvaluator()
 
 
 def _make_e2(p):
@@ -358,7 +376,7 @@ def _make_e2(p):
     symbolic name sets (history independence for the same text); ("pair", i): text i then any text."""
     mode, fixed = p
 
-    def e2(i1: int, n1: int, i2: int, n2: int, same_evaluator: bool, a: int, b: int, via_factory: bool):
+    def e2(i1: int, n1: int, i2: int, n2: int, same_evaluator: bool, a: int, b: int, via_factory: bool, custom_first: bool, eval_between: bool):
         from vt.engine import assume
 
         if mode == "single":
@@ -369,22 +387,35 @@ def _make_e2(p):
             assume(i1 == fixed[0] and i2 == fixed[1])
         else:
             assume(i1 == fixed)
-        return _e2_body(i1, n1, i2, n2, same_evaluator, a, b, via_factory)
+        if mode != "same":
+            assume(not custom_first and not eval_between)  # the two history flags are explored on the same-text sequences
+        if custom_first or eval_between:
+            assume(not via_factory and not (custom_first and eval_between))
+        return _e2_body(i1, n1, i2, n2, same_evaluator, a, b, via_factory, custom_first, eval_between)
 
     return e2
 
 
-def _e2_body(i1: int, n1: int, i2: int, n2: int, same_evaluator: bool, a: int, b: int, via_factory: bool = False):
+def _e2_body(i1: int, n1: int, i2: int, n2: int, same_evaluator: bool, a: int, b: int, via_factory: bool = False, custom_first: bool = False, eval_between: bool = False):
     from vt.engine import assume
     from semantiva.utils.safe_eval import ExpressionEvaluator
 
     assume(0 <= i1 < len(_TABLE) and 0 <= i2 < len(_TABLE) and 0 <= n1 < len(_NAMESETS) and 0 <= n2 < len(_NAMESETS))
-    ev1 = ExpressionEvaluator()
+    # history flags: the first evaluator carries its own extra functions (they are ITS business, not the next evaluator's);
+    # the first compiled expression is evaluated before the second compile
+    ev1 = _new_evaluator(True if (custom_first and not same_evaluator) else False)
     via = True if via_factory else False
     f1 = _compile_once(ev1, i1, n1, via)
-    ev2 = ev1 if same_evaluator else ExpressionEvaluator()
+    if eval_between and callable(f1):
+        try:
+            f1(**{nm: 1 for nm in _NAMESETS[n1]})
+        except Exception:  # noqa: BLE001
+            pass
+    ev2 = ev1 if same_evaluator else _new_evaluator(False)
     f2 = _compile_once(ev2, i2, n2, via)
     for (i, n, f, which) in ((i1, n1, f1, "first"), (i2, n2, f2, "second")):
+        if which == "first" and custom_first and not same_evaluator:
+            continue  # the customised evaluator legitimately accepts more
         exp = _ref_accept(i, n)
         if (f is not None) != exp:
             return Fail("C11.E2:verdict:%s:%s" % (which, "accepted" if f is not None else "rejected"), "%s compile(%r, %r) %s; reference says %s" % (which, _TABLE[i][0], _NAMESETS[n], "accepted" if f is not None else "rejected", exp))
@@ -405,7 +436,7 @@ def _e2_body(i1: int, n1: int, i2: int, n2: int, same_evaluator: bool, a: int, b
 
 
 def _replay_e2(_p, a: Dict[str, Any]) -> Dict[str, Any]:
-    v = _e2_body(a["i1"], a["n1"], a["i2"], a["n2"], a["same_evaluator"], a["a"], a["b"], a.get("via_factory", False))
+    v = _e2_body(a["i1"], a["n1"], a["i2"], a["n2"], a["same_evaluator"], a["a"], a["b"], a.get("via_factory", False), a.get("custom_first", False), a.get("eval_between", False))
     if v is True:
         return {"reproduced": False, "fingerprint": "", "detail": "real compile() agrees with the reference on the concrete sequence"}
     return {"reproduced": True, "fingerprint": v.fingerprint, "detail": v.detail}
@@ -464,7 +495,7 @@ def obligations(tier: str) -> List[Ob]:
             replay=_replay_e2,
             params=[("single", None)] + [("same", i) for i in range(len(_TABLE))] + [("pair2", (i, j)) for i in range(len(_TABLE)) for j in range(len(_TABLE)) if i != j and _TABLE[i][0].startswith(("(a,)", "(b,)")) and _TABLE[j][0].startswith(("(a,)", "(b,)"))] + ([("pair", i) for i in range(len(_TABLE))] if tier == "thorough" else []),
             budget=240 if tier == "quick" else 1200,
-            bound="compile() as the unit: 18 expression texts x 6 declared-name sets (symbolic indices), variable values a,b symbolic ints (evaluation compared with a reference for all values); "
+            bound="compile() as the unit: 20 expression texts x 6 declared-name sets (symbolic indices), variable values a,b symbolic ints (evaluation compared with a reference for all values); "
             "compile reached directly or through ParametricSweepFactory.create (symbolic flag); sequences of 2 compile() calls on the same text with symbolic name sets and same/fresh evaluator (quick), the two tuple-concatenation texts (same signature, different value) in both orders (quick), any ordered pair of texts (thorough)",
             targets=["semantiva/utils/safe_eval.py:ExpressionEvaluator.compile"],
         )
